@@ -6,6 +6,14 @@ Import ListNotations.
 From JV Require Import Model.SbxGen Model.SbxCall.
 Open Scope list_scope.
 
+(* a partial is refused as soon as anything it (transitively) wraps, or the partial itself, is marked *)
+Lemma wcallable_refused : forall w c, In c (w_runs w) -> is_safe_callable_default c = false -> is_safe_wcallable w = false.
+Proof.
+  intros w c. induction w as [c0|own inner IH]; intros Hin Hc; cbn in *.
+  - destruct Hin as [->|[]]. exact Hc.
+  - destruct Hin as [->|Hin]; [rewrite Hc; apply andb_false_r|rewrite (IH Hin Hc); reflexivity].
+Qed.
+
 (* ---- induction principle for the nested inductive [texpr] *)
 Definition OptT (P : texpr -> Prop) (o : option texpr) : Prop := match o with Some x => P x | None => True end.
 
